@@ -41,6 +41,7 @@ class Exploration:
         def run_seq(fname, guard, stepno):
             e.stepno = stepno
             out = e.run(MAIN, {((fname, 0, 0),): guard}, stop_visible=False)
+            e.commit_regs(MAIN, [])
             return out.get((('done',),), False)
         # global constructors
         gc = s.m.globals.get('llvm.global_ctors')
@@ -116,6 +117,7 @@ class Exploration:
                 st = e.tstate[t]
                 if st.get('parked', False) is not False: st['parked'] = ite_g(sel, False, st['parked'])
                 for c2, g2 in e.run(t, starts).items(): new[c2] = gor(new.get(c2, False), g2)
+                e.commit_regs(t, [c for c, g in new.items() if g is not False])
                 ctrl[t].clear()
                 for c, g in new.items():
                     if g is not False: ctrl[t][c] = name(g)
@@ -152,59 +154,47 @@ class Exploration:
         for q in s.cfg.get('skip_queries', []):
             qs = [x for x in qs if x['name'] != q]
         return qs
-    def solve_all(s, qs, jobs=4, timeout_s=600):
+    def solve_all(s, qs, jobs=1, timeout_s=600):
+        """one incremental finite-domain (bit-blasting SAT) solver; each query is checked under an assumption literal"""
         e = s.e
-        base = [a for a in e.assumes] + list(name.defs)
         results = {}
-        pending = list(qs); running = {}
-        def child(q, wfd):
-            try:
-                t1 = time.time()
-                cond = q['cond']
-                if isinstance(cond, bool) and cond is False:
-                    out = dict(r='unsat', t=0.0)
-                else:
-                    tac = z3.Then('simplify', 'propagate-values', 'solve-eqs', 'simplify', 'bit-blast', 'sat')
-                    S = z3.TryFor(tac, int(timeout_s * 1000)).solver()
-                    for a in base: S.add(a)
-                    S.add(gz(cond))
-                    r = S.check()
-                    out = dict(r=str(r), t=time.time() - t1)
-                    if r == z3.unknown: out['reason'] = S.reason_unknown()
-                    if r == z3.sat:
-                        M = S.model()
-                        ev = lambda x: M.eval(gz(x) if isinstance(x, bool) else x, model_completion=True)
-                        out['schedule'] = [ev(sk).as_long() for sk in s.scheds]
-                        out['inputs'] = {n: ev(v).as_long() for n, v in e.inputs.items()}
-                        out['violated'] = [m_ for m_, (g, k) in e.checks.items() if g is not False and z3.is_true(ev(g))]
-                        out['ctrl'] = []
-                        for t in range(s.NT):
-                            for c, g in e.ctrlsets[t].items():
-                                if z3.is_true(ev(g)): out['ctrl'].append([t, [list(x) for x in c[:4]]])
-                out['maxrss_mb'] = resource.getrusage(resource.RUSAGE_SELF).ru_maxrss // 1024
-                os.write(wfd, json.dumps(out).encode())
-            except BaseException as ex:
-                os.write(wfd, json.dumps(dict(r='error', reason=repr(ex)[:300], t=0)).encode())
-            finally:
-                os._exit(0)
-        while pending or running:
-            while pending and len(running) < jobs:
-                q = pending.pop(0); r, w = os.pipe(); pid = os.fork()
-                if pid == 0:
-                    os.close(r); child(q, w)
-                os.close(w); running[r] = (q, pid, b'', time.time())
-            rl, _, _ = select.select(list(running), [], [], 1.0)
-            for fd in rl:
-                q, pid, buf, st = running[fd]
-                d = os.read(fd, 1 << 20)
-                if d: running[fd] = (q, pid, buf + d, st); continue
-                os.close(fd); os.waitpid(pid, 0); del running[fd]
-                try: results[q['name']] = json.loads(buf.decode())
-                except Exception: results[q['name']] = dict(r='error', reason='child died (out of memory?)', t=time.time() - st)
-            for fd, (q, pid, buf, st) in list(running.items()):
-                if time.time() - st > timeout_s + 60:
-                    try: os.kill(pid, 9)
-                    except OSError: pass
+        S = z3.SolverFor('QF_FD')
+        t1 = time.time()
+        for a in e.assumes: S.add(a)
+        for a in name.defs: S.add(a)
+        lits = {}
+        for i, q in enumerate(qs):
+            c = q['cond']
+            if isinstance(c, bool): continue
+            b = z3.Bool('query!%d' % i); S.add(b == c); lits[q['name']] = b
+        order = sorted(qs, key=lambda q: 0 if q['expect'] == 'sat' else 1)
+        deadline = time.time() + timeout_s
+        for q in order:
+            t1 = time.time(); c = q['cond']
+            if isinstance(c, bool):
+                r = z3.sat if c else z3.unsat
+                if c:
+                    S.set('timeout', max(1000, int((deadline - time.time()) * 1000))); r = S.check()
+            else:
+                left = deadline - time.time()
+                if left < 1:
+                    results[q['name']] = dict(r='unknown', reason='harness solver budget exhausted', t=0); continue
+                S.set('timeout', int(left * 1000))
+                r = S.check(lits[q['name']])
+            out = dict(r=str(r), t=time.time() - t1)
+            if r == z3.unknown: out['reason'] = S.reason_unknown()
+            if r == z3.sat:
+                M = S.model()
+                ev = lambda x: M.eval(gz(x) if isinstance(x, bool) else x, model_completion=True)
+                out['schedule'] = [ev(sk).as_long() for sk in s.scheds]
+                out['inputs'] = {n: ev(v).as_long() for n, v in e.inputs.items()}
+                out['violated'] = [m_ for m_, (g, k) in e.checks.items() if g is not False and z3.is_true(ev(g))]
+                out['ctrl'] = []
+                for t in range(s.NT):
+                    for c2, g in e.ctrlsets[t].items():
+                        if z3.is_true(ev(g)): out['ctrl'].append([t, [list(x) for x in c2[:4]]])
+            out['maxrss_mb'] = resource.getrusage(resource.RUSAGE_SELF).ru_maxrss // 1024
+            results[q['name']] = out
         return results
 
 def load_module(path):
